@@ -163,7 +163,7 @@ theorem offerAllElements_shift (cfg : Config) (pre : List Obs) (x : Ctx) (fp : P
 theorem fetchReq_shift (cfg : Config) (pre : List Obs) (x : Ctx) (p : Peer) (req : Json) :
     fetchReq cfg (shift pre x) p req = shift2 pre (fetchReq cfg x p req) := by
   unfold fetchReq
-  repeat' (first | rfl | (simp only [shift_setSt, shift_mk, shift_st, shift2, offerAllElements_shift]) | split | contradiction)
+  repeat' (first | rfl | (simp only [shift_mk, shift_st, shift2, offerAllElements_shift]) | split | contradiction)
 
 theorem unfetchReq_shift (pre : List Obs) (x : Ctx) (p : Peer) (req : Json) :
     unfetchReq (shift pre x) p req = shift2 pre (unfetchReq x p req) := by
